@@ -22,6 +22,7 @@ import (
 	"sort"
 	"strings"
 	"testing"
+	"time"
 
 	"github.com/miekg/dns"
 	"github.com/semihalev/sdns/config"
@@ -205,6 +206,9 @@ type vkRig struct {
 	writesAtNext int
 	reqAtNext    *dns.Msg
 	sentinel     *dns.Msg
+	// wire: the query arrives the way the UDP/TCP engines hand it on — parsed from its packet and not yet
+	// decoded (Request.ParseWire + Chain.ResetWire) — instead of as a decoded message
+	wire bool
 }
 
 func vkNewRig() *vkRig {
@@ -242,7 +246,19 @@ func (r *vkRig) vkServe(b *BlockList, qname string, qtype uint16, wantBlocked bo
 	r.tr.writes, r.tr.last, r.tr.raw = 0, nil, false
 	r.nextCalls, r.writesAtNext, r.reqAtNext = 0, 0, nil
 	r.sentinel = &dns.Msg{MsgHdr: dns.MsgHdr{Id: 0x7e57, Response: true, Rcode: dns.RcodeRefused}}
-	r.ch.Reset(r.tr, req)
+	if r.wire {
+		raw, err := req.Pack()
+		if err != nil {
+			return "", "wire-unpackable" // a name with no wire form cannot arrive in a packet
+		}
+		wreq := new(middleware.Request)
+		if !wreq.ParseWire(raw, time.Now(), nil) {
+			return "", "wire-unparsable"
+		}
+		r.ch.ResetWire(r.tr, wreq)
+	} else {
+		r.ch.Reset(r.tr, req)
+	}
 	r.ch.Next(context.Background())
 	r.ch.Finish()
 
@@ -256,8 +272,11 @@ func (r *vkRig) vkServe(b *BlockList, qname string, qtype uint16, wantBlocked bo
 		if r.writesAtNext != 0 {
 			return "name is not blocked but a response had already been written when the next handler ran", "pass-broken"
 		}
-		if r.reqAtNext != req {
+		if !r.wire && r.reqAtNext != req {
 			return "name is not blocked but the next handler saw a different request message", "pass-broken"
+		}
+		if r.wire && (r.reqAtNext == nil || len(r.reqAtNext.Question) != 1 || r.reqAtNext.Question[0] != req.Question[0] || r.reqAtNext.Id != req.Id) {
+			return "name is not blocked but the next handler saw a different question than the packet carried", "pass-broken"
 		}
 		if r.tr.writes != 1 || r.tr.last != r.sentinel || r.sentinel.Rcode != dns.RcodeRefused || r.sentinel.Id != 0x7e57 ||
 			len(r.sentinel.Answer) != 0 || len(r.sentinel.Ns) != 0 || len(r.sentinel.Extra) != 0 {
@@ -311,6 +330,7 @@ type vkMatchCase struct {
 	List  vkList `json:"list"`
 	Query string `json:"query"`
 	Qtype uint16 `json:"qtype"` // 0 = Exists() only
+	Wire  bool   `json:"wire,omitempty"`
 }
 
 // vkJudge runs one case on fresh objects; "" = property holds.
@@ -323,7 +343,12 @@ func vkJudge(cs vkMatchCase) string {
 		}
 		return ""
 	}
-	v, _ := vkNewRig().vkServe(b, cs.Query, cs.Qtype, want)
+	rig := vkNewRig()
+	rig.wire = cs.Wire
+	v, _ := rig.vkServe(b, cs.Query, cs.Qtype, want)
+	if v != "" && cs.Wire {
+		v = "wire-born request: " + v
+	}
 	if v != "" {
 		return fmt.Sprintf("list %v, query %s %s (reference: blocked=%v): %s", cs.List, cs.Query, dns.TypeToString[cs.Qtype], want, v)
 	}
@@ -393,6 +418,9 @@ func vkRunMatch(c *vkit.Ctx, cfg vkMatchCfg, queries []string, qdepth []int) {
 			return
 		}
 		key := fmt.Sprintf("match:%v|%s|%s", cs.List, cs.Query, vkQT(cs.Qtype))
+		if cs.Wire {
+			key += "|wire-born"
+		}
 		c.Violation(key, again, cs)
 		if c.NumViolations() >= 12 {
 			stop = true
@@ -461,25 +489,39 @@ func vkRunMatch(c *vkit.Ctx, cfg vkMatchCfg, queries []string, qdepth []int) {
 			}
 			if len(idx) <= cfg.serveAll {
 				for _, qt := range cfg.qtypes {
-					v, o := rig.vkServe(b, q, qt, want[qi])
-					ev++
-					c.Outcome("serve:" + o)
-					if v != "" {
-						report(vkMatchCase{Unit: "match", List: l, Query: q, Qtype: qt}, v)
-						if stop {
-							return
+					for _, wire := range []bool{false, true} {
+						rig.wire = wire
+						v, o := rig.vkServe(b, q, qt, want[qi])
+						rig.wire = false
+						ev++
+						if wire {
+							o = "wire:" + o
+						}
+						c.Outcome("serve:" + o)
+						if v != "" {
+							report(vkMatchCase{Unit: "match", List: l, Query: q, Qtype: qt, Wire: wire}, v)
+							if stop {
+								return
+							}
 						}
 					}
 				}
 			} else if qdepth[qi] <= cfg.serveDepth {
 				qt := cfg.qtypes[(int(listNo)+qi)%len(cfg.qtypes)]
-				v, o := rig.vkServe(b, q, qt, want[qi])
-				ev++
-				c.Outcome("serve:" + o)
-				if v != "" {
-					report(vkMatchCase{Unit: "match", List: l, Query: q, Qtype: qt}, v)
-					if stop {
-						return
+				for _, wire := range []bool{false, true} {
+					rig.wire = wire
+					v, o := rig.vkServe(b, q, qt, want[qi])
+					rig.wire = false
+					ev++
+					if wire {
+						o = "wire:" + o
+					}
+					c.Outcome("serve:" + o)
+					if v != "" {
+						report(vkMatchCase{Unit: "match", List: l, Query: q, Qtype: qt, Wire: wire}, v)
+						if stop {
+							return
+						}
 					}
 				}
 			}
